@@ -100,7 +100,7 @@ PROPS["C04"] = dict(
     assumptions=COMMON_ASSUME,
     require_labels=["factory=buffered", "factory=direct", "seek-back", "record-crosses-4096", "comp=0", "comp=1", "comp=2", "comp=3"],
     quick=dict(shards=16, checks=100, shrink_s=15),
-    thorough=dict(shards=16, checks=3000, timeout_s=5400),
+    thorough=dict(fuzz_s=240, shards=16, checks=3000, timeout_s=5400),
 )
 
 PROPS["C12"] = dict(
@@ -117,7 +117,7 @@ PROPS["C12"] = dict(
     assumptions=COMMON_ASSUME + ["files are materialised on tmpfs (/dev/shm) when present"],
     require_labels=["cut:inside-header", "cut:between-header-and-payload", "cut:inside-payload", "cut:inside-compressed-payload", "hdr:marker", "hdr:nilflag", "hdr:usize", "hdr:csize", "hdr:crc", "filehdr:version", "filehdr:compression"],
     quick=dict(shards=16, checks=3, shrink_s=30),
-    thorough=dict(shards=16, checks=130, timeout_s=5400),
+    thorough=dict(fuzz_s=240, shards=16, checks=130, timeout_s=5400),
 )
 
 PROPS["C09"] = dict(
@@ -132,7 +132,7 @@ PROPS["C09"] = dict(
     assumptions=COMMON_ASSUME + ["tables are materialised on tmpfs (/dev/shm) when present"],
     require_labels=["byte:file-header", "byte:record-header", "byte:payload", "truncation", "swap", "dcomp=0", "dcomp=1", "dcomp=2", "dcomp=3"],
     quick=dict(shards=16, checks=3, shrink_s=30),
-    thorough=dict(shards=16, checks=100, timeout_s=5400),
+    thorough=dict(fuzz_s=180, shards=16, checks=100, timeout_s=5400),
 )
 
 PROPS["C20"] = dict(
@@ -147,7 +147,7 @@ PROPS["C20"] = dict(
     assumptions=COMMON_ASSUME,
     require_labels=["comp=0", "comp=1", "comp=2", "comp=3"],
     quick=dict(shards=16, checks=200),
-    thorough=dict(shards=16, checks=5000, timeout_s=3600),
+    thorough=dict(fuzz_s=180, shards=16, checks=5000, timeout_s=3600),
 )
 
 PROPS["C11"] = dict(
@@ -155,13 +155,13 @@ PROPS["C11"] = dict(
     technique="PBT-generated merge inputs (rapid) x exhaustive single-fault injection at every iterator and writer position (+ sampled double faults); system leg: failing table writers inside flush/compaction of a child process",
     rule=("interface leg (5 of 6 cases): one run of Merge / MergeCompact(latest-wins) / MergeCompact(skip-tombstones) over 1..5 generated overlapping inputs per injected fault: input i fails at its j-th Next (every i, every j incl. the "
           "call that would return Done; one-shot and sticky) or the writer fails at its p-th WriteNext (every p; one-shot and sticky), plus up to 6 generated double faults; oracle: fault fired => a non-nil error (or a panic), no fault "
-          "fired => nil. System leg (1 of 6): a generated simpledb program runs in a child process in which the data or index writer of the f-th flush / c-th compaction fails at record position p (verif-tag writer-open hook, failure "
-          "model of the repository's failingRecordIoWriter); the child may stop or continue, afterwards the parent opens the directory without faults and its content must equal the map of the acknowledged operations. "
-          "non-trivial = the fault fired before the last output record was written (interface) / the fault was armed and the child stopped or an operation returned an error (system); distinct = (case hash, fault position)"),
+          "fired => nil. System leg (1 of 6): a generated simpledb program runs in a child process in which the data or index writer of the f-th flush / c-th compaction fails at record position p or at its Close, i.e. the final flush (verif-tag writer-open hook, failure "
+          "model of the repository's failingRecordIoWriter); the child may stop or continue, if the fault fired, an operation must have returned an error or the child must have stopped; afterwards the parent opens the directory without faults and its content must equal the map of the acknowledged operations. "
+          "non-trivial = the fault fired before the last output record was written (interface) / the fault fired (system); distinct = (case hash, fault position)"),
     level_text="Every single fault position of every generated merge is enumerated with an exact oracle; the system leg samples fault positions inside real flushes and compactions.",
     level_note="system-leg faults are whole-call failures of the table's recordio writers (not failing write(2) calls): the code calls os.* directly, so system-call-level fault injection would need ptrace control that strace cannot give per process-wide call number",
     assumptions=COMMON_ASSUME + ["hooks: sstables.VerifSetWriterOpenHook / VerifWrapWriters (tag verif)"],
-    require_labels=["kind=merge", "kind=compact-latest", "kind=compact-skip", "leg=system", "fault-armed", "child-stopped"],
+    require_labels=["kind=merge", "kind=compact-latest", "kind=compact-skip", "leg=system", "fault-fired", "fault-fired-at-close", "child-stopped"],
     quick=dict(shards=16, checks=60, shrink_s=5),
     thorough=dict(shards=16, checks=1500, timeout_s=3600),
 )
